@@ -881,36 +881,29 @@ Definition show {A} (r : res A) : list Z :=
   | Err e ch => 0%Z :: enc_err e ++ Z.of_nat (List.length ch) :: flat_map enc_str ch
   end.
 
-Fixpoint json_eqb (a b : json) {struct a} : bool :=
-  match a, b with
-  | JNull, JNull => true
-  | JBool x, JBool y => Bool.eqb x y
-  | JInt x, JInt y => Z.eqb x y
-  | JFlt x, JFlt y => Z.eqb x y
-  | JStr x, JStr y => String.eqb x y
-  | JArr x, JArr y =>
-      (fix go (x y : list json) : bool :=
-         match x, y with
-         | [], [] => true
-         | a :: x', b :: y' => json_eqb a b && go x' y'
-         | _, _ => false
-         end) x y
-  | JObj x, JObj y =>
-      (fix go (x y : list (string * json)) : bool :=
-         match x, y with
-         | [], [] => true
-         | (k, a) :: x', (k', b) :: y' => String.eqb k k' && json_eqb a b && go x' y'
-         | _, _ => false
-         end) x y
-  | _, _ => false
+(* fingerprints of whole documents (for comparing remove_comments / expand_plates results with the
+   implementation's without shipping them back and forth): polynomial hash of the token stream *)
+Fixpoint tok_json (j : json) : list Z :=
+  match j with
+  | JNull => [0%Z]
+  | JBool b => [1%Z; if b then 1%Z else 0%Z]
+  | JInt z => [2%Z; z]
+  | JFlt z => [3%Z; z]
+  | JStr s => 4%Z :: enc_str s
+  | JArr l => 5%Z :: Z.of_nat (List.length l) ::
+              (fix go (l : list json) : list Z := match l with [] => [] | x :: r => tok_json x ++ go r end) l
+  | JObj kv => 6%Z :: Z.of_nat (List.length kv) ::
+               (fix go (kv : list (string * json)) : list Z :=
+                  match kv with [] => [] | (k, v) :: r => enc_str k ++ tok_json v ++ go r end) kv
   end.
 
-(* does the model's remove_comments / expand_plates agree with what the implementation produced? *)
-Definition same_rc (data py_result : json) : Z := if json_eqb (rc data) py_result then 1%Z else 0%Z.
-Definition same_expand (fuel : nat) (data : json) (py_result : option json) : Z :=
-  match expand fuel data, py_result with
-  | inl j, Some p => if json_eqb j p then 1%Z else 0%Z
-  | inr e, None => if parse_error e then 2%Z else 3%Z
-  | inl _, None => 4%Z
-  | inr _, Some _ => 5%Z
+Definition fp_json (j : json) : Z :=
+  fold_left (fun h t => ((h * 1000003 + t + 1) mod 2305843009213693951)%Z) (tok_json j) 7%Z.
+
+(* [fp (remove_comments data); outcome of expand_plates on it: 1 + fp | 2 parse error | 3 other exception] *)
+Definition fp_prepare (fuel : nat) (data : json) : list Z :=
+  fp_json (rc data) ::
+  match expand fuel (rc data) with
+  | inl j => [1%Z; fp_json j]
+  | inr e => [if parse_error e then 2%Z else 3%Z; 0%Z]
   end.
